@@ -129,3 +129,9 @@ rinst!(q, dec_btree_map_r1_valueonly, 12, pb::pb_btree_map_r::<1, 3>);
 rinst!(q, dec_rep_int32_packed_r1_len1, 12, pb::pb_rep_int32_r1::<true, 1>);
 rinst!(t, dec_rep_int32_packed_r1_len10, 12, pb::pb_rep_int32_r1::<true, 10>);
 rinst!(q, dec_rep_int32_unpacked_r1_len2, 12, pb::pb_rep_int32_r1::<false, 2>);
+#[cfg(kani)]
+#[kani::proof]
+#[kani::unwind(12)]
+#[kani::stub(alloc::fmt::format, crate::common::fmt_stub)]
+#[kani::stub(ahash::RandomState::new, crate::pb::rs_stub)]
+pub fn c05_x_hash_map_w() { pb::pb_hash_map_roundtrip::<{C05}>() }
